@@ -47,7 +47,7 @@ CFG = {
     "technique": "Coq proof (finite table lemmas by vm_compute + unbounded lifting over sign grids) + vm_compute "
                  "correspondence check against the real MarchingCanvas",
     "design_ref": "DESIGN.md §4 C09",
-    "n_quick": 14, "n_thorough": 400,
+    "n_quick": 12, "n_thorough": 400,
     "search_n": 80,
     "harness_timeout": 3000,
     "rule": "unions (CombineFields) and sums (repeated AddField) of 1-4 spheres / boxes (1/3 lattice aligned) / capsules "
